@@ -193,3 +193,44 @@ Definition sk_entry (e : entry) : list stok :=
   | DTtl t => [mkSk ZDirTTL [] 0; sk_blank; sk_str t; sk_nl]
   end.
 Definition sk_zone (es : list entry) : list stok := flat_map sk_entry es.
+
+(* decidable form of [realizes], for the case runner and worked examples *)
+Definition realizes_b (t : tok) (k : stok) : bool :=
+  tval_eqb (t_val t) (k_val k) && negb (t_err t) && negb (bytes_eqb (t_text t) []) &&
+  (if text_matters (k_val k) then bytes_eqb (t_text t) (k_text k) else true) &&
+  (if torc_matters (k_val k) then t_torc t =? k_torc k else true).
+Fixpoint forall2b {A B} (f : A -> B -> bool) (a : list A) (b : list B) : bool :=
+  match a, b with
+  | [], [] => true
+  | x :: a', y :: b' => f x y && forall2b f a' b'
+  | _, _ => false
+  end.
+
+(* ---------- $GENERATE templates ---------- *)
+(* the text after the range: literal text, the bare iterator $, and modifier
+   blocks ${...} (kept as their text between the braces) *)
+Inductive gpiece := GLit (s : bytes) | GIter | GMod (text : bytes).
+Definition render_piece (p : gpiece) : bytes :=
+  match p with
+  | GLit s => s
+  | GIter => [36]
+  | GMod t => [36; 123] ++ t ++ [125]
+  end.
+Definition render_tpl (tpl : list gpiece) : bytes := flat_map render_piece tpl.
+(* what a piece becomes for iterator value i *)
+Definition subst_piece (i : Z) (p : gpiece) : bytes :=
+  match p with
+  | GLit s => s
+  | GIter => fmt_int 0 100 i
+  | GMod t => match mod_to_printf t with
+              | inr (w, b, off) => fmt_int w b (wrap64 (i + off))
+              | inl _ => []
+              end
+  end.
+Definition subst_tpl (i : Z) (tpl : list gpiece) : bytes := flat_map (subst_piece i) tpl.
+(* the iterator values: start, start+step, ... up to stop (at most n of them) *)
+Fixpoint gen_values (n : nat) (cur stop step : Z) : list Z :=
+  match n with
+  | O => []
+  | S k => cur :: (if (stop <? cur + step)%Z then [] else gen_values k (cur + step)%Z stop step)
+  end.
